@@ -316,6 +316,8 @@ theorem after_cells (w : Nat) (eqv : Nat → Nat → Bool) (p t : List Nat) (dma
     ∃ i j, i < p.length ∧ j ≤ stop ∧
       (Handler.after dmax p.length (fun k => (seqStates w eqv p dmax t).getD (stop + 1 - k) ⟨0#w, 0#w, 0⟩) n).pos =
         BitVec.twoPow w i ∧
+      (Handler.after dmax p.length (fun k => (seqStates w eqv p dmax t).getD (stop + 1 - k) ⟨0#w, 0#w, 0⟩) n).taken =
+        stop - j + 2 ∧
       HandlerCells w eqv p t dmax i j
         (Handler.after dmax p.length (fun k => (seqStates w eqv p dmax t).getD (stop + 1 - k) ⟨0#w, 0#w, 0⟩) n) := by
   have st := stored_of_rd w eqv p dmax 0 t stop
@@ -342,7 +344,7 @@ theorem after_cells (w : Nat) (eqv : Nat → Nat → Bool) (p t : List Nat) (dma
     have ld := hinv.ldist
     rw [colOf_succ, hD _ _ (by omega) (by omega)] at sd
     rw [hD _ _ (by omega) (by omega), hD _ _ (by omega) (by omega)] at t1 t2 t3
-    refine ⟨i, j, hi, by omega, hinv.pos, by omega, ?_, ?_, ?_, t2, ?_⟩
+    refine ⟨i, j, hi, by omega, hinv.pos, by have := hinv.taken; omega, by omega, ?_, ?_, ?_, t2, ?_⟩
     · intro hj1
       obtain ⟨j', rfl⟩ : ∃ j', j = j' + 1 := ⟨j - 1, by omega⟩
       rw [colOf_succ, hD _ _ (by omega) (by omega)] at ld
